@@ -41,12 +41,16 @@ scenes of that program skip that edit (`hang_edits_skipped`, then `exhaustive` i
 
 from __future__ import annotations
 
+import hashlib
+import json
 import math
 import os
 import random
 import re
 import resource
 import signal
+import subprocess
+import sys
 import time
 
 from mc import dyn, explorer, seams
@@ -66,6 +70,8 @@ FAST_TIMEOUT = 1.0  # first look; a decode exceeding it is re-run with DECODE_TI
 REPLAY_FAULT_RECORDINGS_DIV = {"quick": 1, "thorough": 2}  # same, for recordings with divergence data (long, homogeneous)
 REPLAY_FAULT_RECORDINGS = {"quick": 2, "thorough": 30}  # per program: the first recordings (enumeration order) get every replay fault
 DIV_SHARDS = {"quick": 4, "thorough": 12}  # slices of the perturbation points of a divergence program (parallelism only)
+SET_ORDER_CAP = {"quick": 120, "thorough": 720}  # compilations per program under different set iteration orders
+FRESH_PROCESS_HASHSEEDS = {"quick": (1,), "thorough": (1, 2, 3)}  # PYTHONHASHSEED of the fresh-process compilations (the run itself uses 0)
 HANG_REPEATS = 2  # after this many confirmed hangs at the same (offset, edit) of a program, later scenes skip that edit
 RSS_GROWTH_LIMIT_KB = 400 * 1024  # a single decode growing the process by more is reported
 EDITS = (("xor01", lambda b: b ^ 0x01), ("xor80", lambda b: b ^ 0x80), ("zero", lambda b: 0x00), ("ff", lambda b: 0xFF))
@@ -172,6 +178,24 @@ def scene_snapshot(scene):
     params = tuple(sorted(((k, canon(v)) for k, v in scene.params.items()), key=lambda kv: kv[0]))
     ego = scene.objects.index(scene.egoObject) if scene.egoObject in scene.objects else None
     return {"objects": objs, "params": params, "ego": ego}
+
+
+def globals_snapshot(scene):
+    """Sampled values of the random module-level globals visible to behaviours / monitors:
+    {"module:name": canonical value}.  Only names that are still bound to a distribution in the
+    compilation's namespace (evaluating a `require` rebinds the names it uses to plain values)."""
+    from scenic.core.distributions import Distribution
+
+    out = {}
+    for mod, (ns, sampled, original) in scene.behaviorNamespaces.items():
+        for name, value in original.items():
+            if not name.startswith("_") and isinstance(value, Distribution) and name in sampled:
+                out[f"{mod}:{name}"] = canon(sampled[name])
+    return out
+
+
+def digest(x):
+    return hashlib.sha1(repr(x).encode()).hexdigest()[:16]
 
 
 def snapshot_diff(a, b):
@@ -340,6 +364,9 @@ def new_stats():
         "corruptions": 0, "corr_refused": 0, "corr_scene": 0, "corr_escape": 0, "corr_noop": 0, "corr_scene_changed": 0,
         "header_corruptions": 0,
         "foreign": 0, "foreign_refused": 0, "foreign_same_hash": 0, "option_variants": 0, "option_refused": 0,
+        "cpu_s": 0.0, "cpu_other_compilations_s": 0.0,
+        "set_order_compilations": 0, "set_order_choice_points": 0, "set_order_capped_programs": 0, "cross_decodes": 0, "cross_comparisons": 0,
+        "globals_compared": 0, "requirement_rechecks": 0, "decoded_simulations": 0, "cross_replays": 0, "fresh_process_decodes": 0, "fresh_process_programs": 0,
         "int_classes": {}, "int_values": [], "fields": {}, "unparsed_layouts": 0, "decode_rng_draws": 0,
         "value_codec": 0,
     }
@@ -373,13 +400,34 @@ def _origin_json(origin):
     return [origin[0], list(origin[1]) if isinstance(origin[1], tuple) else origin[1]]
 
 
-def encode_scene(scenario, scene):
-    """(snapshot, bytes) of a scene, or (snapshot, exception)."""
+def encode_scene(scenario, scene, opts=None):
+    """(snapshot, bytes or exception, extra) of a scene.  extra: the sampled behaviour-visible
+    globals and, for programs with opts["sim"], the view of a simulation of the scene in the
+    deterministic simulator and its simulationToBytes encoding."""
     snap = scene_snapshot(scene)
+    extra = {"globals": globals_snapshot(scene), "view": None, "simdata": None}
     try:
-        return snap, scenario.sceneToBytes(scene)
+        data = scenario.sceneToBytes(scene)
     except Exception as e:  # noqa: BLE001 - observed by check_encoding
-        return snap, e
+        return snap, e, extra
+    steps = (opts or {}).get("sim")
+    if steps:
+        out = simulate_scene(scene, steps)
+        if out[0] == "sim":
+            extra["view"] = sim_view(out[1], out[2], full=True)
+            try:
+                extra["simdata"] = scenario.simulationToBytes(out[1])
+            except Exception as e:  # noqa: BLE001
+                extra["simdata"] = e
+        else:
+            extra["view"] = ("no-simulation",) + tuple(str(x)[:120] for x in out)
+    return snap, data, extra
+
+
+def simulate_scene(scene, steps):
+    """Simulate in the deterministic simulator; any random draw takes the first alternative."""
+    with seams.rng_seam(mode="lattice", lattice_n=LATTICE_N), explorer.running(ForcedExecution(0)):
+        return run_sim(C18Simulator(), scene, steps)
 
 
 def check_encoding(prog, scenA, scenB, origin, encoded, st, viol, do_faults=True, only=None, pstate=None):
@@ -393,7 +441,7 @@ def check_encoding(prog, scenA, scenB, origin, encoded, st, viol, do_faults=True
     if pstate is None:
         pstate = {"seen": set(), "hangs": {}}
 
-    snap0, data = encoded
+    snap0, data = encoded[0], encoded[1]
     if isinstance(data, Exception):
         kind = "encode-refused" if isinstance(data, SerializationError) else f"encode-error:{type(data).__name__}"
         viol.append((f"{kind}:{feat}", f"sceneToBytes raised {data!r} for a scene of built-in distributions\n{text}", _case("roundtrip", prog, origin=_origin_json(origin))))
@@ -524,27 +572,52 @@ def check_static(item):
     viol = []
     res = {"idx": idx, "name": name, "stats": st, "violations": viol, "sample": None, "hash": None, "wall": 0.0}
     t0 = time.time()
+    c0 = time.process_time()
     try:
         scenA = compile_scenario(text, opts)
-        scenB = compile_scenario(text, opts)
+        # the recompilation(s): one per iteration order of the identity-hashed sets used while the
+        # scenario is constructed (a single one when there is no such set); the first serves as
+        # "the recompiled scenario" of check_encoding
+        orders = set_order_compilations(prog, tier, st)
+        scenB = orders[0][1]
+    except HarnessError:
+        raise
     except Exception as e:  # noqa: BLE001
         raise HarnessError(f"C18 program {name} does not compile: {e!r}\n{text}")
     res["hash"] = (scenA.astHash.hex(), scenA.compileOptions.hash.hex())
     try:
-        scenes, rejected = enumerate_scenes(scenA, mode, tier, keep=lambda sc: encode_scene(scenA, sc))
+        scenes, rejected = enumerate_scenes(scenA, mode, tier, keep=lambda sc: encode_scene(scenA, sc, opts))
     except OutOfFragment as e:
         raise HarnessError(f"C18 program {name} leaves the RNG fragment ({e}); declare it 'seeds'\n{text}")
     st["scenes"] = len(scenes)
     st["rejected"] = rejected
     pstate = {"seen": set(), "hangs": {}}
+    encs, seen = [], set()
     for origin, encoded in scenes:
         data = check_encoding(prog, scenA, scenB, origin, encoded, st, viol, do_faults=do_faults, pstate=pstate)
         if res["sample"] is None and data is not None:
             res["sample"] = data.hex()
+        # distinct (bytes, original) pairs for the other compilations
+        if data is not None:
+            key = (data, digest((encoded[0], sorted(encoded[2]["globals"].items()), encoded[2]["view"])))
+            if key not in seen:
+                seen.add(key)
+                encs.append((origin, encoded[0], data, encoded[2]))
+    # (1b) every other compilation of the same program + options decodes to the same scene
+    c1 = time.process_time()
+    check_compilations(prog, scenA, orders, tier, encs, st, viol)
+    cross_cpu = time.process_time() - c1
+    res["encs"] = [
+        {"origin": _origin_json(o), "hex": d.hex(), "digest": digest(sn), "globals": {k: repr(v) for k, v in ex["globals"].items()},
+         "view": digest(ex["view"]) if ex["view"] is not None else None, "simhex": ex["simdata"].hex() if isinstance(ex["simdata"], bytes) else None}
+        for o, sn, d, ex in encs
+    ]
     # (2b) the same text compiled with other options / one more statement must refuse
-    if res["sample"] is not None:
+    if res["sample"] is not None and not name.startswith("x_"):
         check_option_variants(prog, scenA, bytes.fromhex(res["sample"]), st, viol)
     res["wall"] = time.time() - t0
+    st["cpu_s"] = time.process_time() - c0
+    st["cpu_other_compilations_s"] = st["cpu_s"] if name.startswith("x_") else cross_cpu
     return res
 
 
@@ -630,6 +703,245 @@ def _expect_refusal(prog, scenario, data, what, st, viol, kcount, kref, extra):
     viol.append((f"refusal-missed:{what}" if out[0] == "scene" else f"refusal-{_outcome_sig(out)}:{what}",
                  f"bytes {data.hex()} of a different compilation ({what}) must raise SerializationError; {got}\n{text}",
                  _case("variant", prog, hex=data.hex(), **extra)))
+
+
+# ---------------------------------------------------------------------------------
+# decoding by OTHER compilations of the same program + options
+# ---------------------------------------------------------------------------------
+
+SET_ORDER_MODULES = ("scenic.core.requirements", "scenic.core.dynamics.scenarios", "scenic.core.scenarios")
+
+
+def compile_under_set_order(text, opts, chooser):
+    """Compile with every `set` of the scenario-construction modules replaced by a set whose
+    iteration order is the permutation chooser picks (identity-hashed elements: any order is a
+    possible memory layout).  The seam must really be installed."""
+    import importlib
+    import itertools
+
+    cache = {}
+
+    def perm_source(n, items):
+        if n not in cache:
+            cache[n] = list(itertools.permutations(range(n))) if n <= 6 else None
+        if cache[n] is None:  # too many orders to enumerate: identity and reversal
+            return (tuple(range(n)), tuple(reversed(range(n))))[chooser(2)]
+        return cache[n][chooser(len(cache[n]))]
+
+    with seams.set_order_seam(perm_source):
+        for m in SET_ORDER_MODULES:
+            if importlib.import_module(m).__dict__.get("set") is not seams.ScriptedSet:
+                raise HarnessError(f"set-order seam not installed in {m}")
+        return compile_scenario(text, opts)
+
+
+def set_order_compilations(prog, tier, st):
+    """One compilation per iteration order of the injected sets (complete tree up to the cap)."""
+    idx, name, feat, text, mode, opts = prog
+    out = []
+    holder = {}
+
+    def once():
+        holder["sc"] = compile_under_set_order(text, opts, lambda n: explorer.choose(n, tag="setorder"))
+        return None
+
+    for ex, _, stats in explorer.explore(once, max_executions=SET_ORDER_CAP[tier]):
+        out.append((f"set-order{list(ex.choices)}", holder["sc"], {"set_order": list(ex.choices)}))
+        st["set_order_compilations"] += 1
+        st["set_order_choice_points"] += len(ex.points)
+    if stats.capped:
+        st["set_order_capped_programs"] += 1
+    return out
+
+
+def compare_decoded(prog, label, info, scen, data, snap0, extra, dec, st, viol, base, same=False):
+    """Decoded scene `dec` (by compilation `label`) against the original: properties and params,
+    behaviour-visible globals, requirement re-check, simulation of the decoded scene, replay of the
+    recorded simulation on this compilation.  Returns the number of comparisons made."""
+    idx, name, feat, text, mode, opts = prog
+    tag = "" if same else "-other-compilation"
+    case = lambda **kw: _case("other-compilation", prog, label=label, **info, **base, **kw)  # noqa: E731
+    snap1 = scene_snapshot(dec)
+    if snap1 != snap0:
+        names = snapshot_diff(snap0, snap1)
+        viol.append((f"roundtrip-mismatch{'' if same else '-recompiled'}:{feat}", f"decoded by {label}: scene differs from the original in {names[:8]}: original {_show(snap0, names)}; decoded {_show(snap1, names)}\n"
+                     f"bytes={data.hex()}\n{text}", case(what="snapshot")))
+        return 1
+    n = 1
+    g0, g1 = extra["globals"], globals_snapshot(dec)
+    common = sorted(set(g0) & set(g1))
+    st["globals_compared"] += len(common)
+    bad = [k for k in common if g0[k] != g1[k]]
+    if bad:
+        perm = sorted(repr(g0[k]) for k in bad) == sorted(repr(g1[k]) for k in bad)
+        viol.append((f"roundtrip-mismatch{tag}:behavior-globals-{'permuted' if perm else 'changed'}",
+                     f"decoded by {label} without any error, but the module-level random globals seen by behaviours / monitors differ: "
+                     f"original {{{', '.join(f'{k}={g0[k]!r}' for k in bad)}}}; decoded {{{', '.join(f'{k}={g1[k]!r}' for k in bad)}}}\nbytes={data.hex()}\n{text}", case(what="globals")))
+        return n
+    if opts.get("recheck"):
+        n += 1
+        st["requirement_rechecks"] += 1
+        try:
+            rej = scen.checker.checkRequirements(dec.sample)
+        except Exception as e:  # noqa: BLE001
+            rej = f"{type(e).__name__}: {e}"
+        if rej is not None:
+            viol.append((f"decoded-scene-violates-requirements{tag}:{feat}", f"decoded by {label}: the decoded sample violates the program's requirements ({rej}); the encoded scene satisfied them\n"
+                         f"bytes={data.hex()}\n{text}", case(what="recheck")))
+            return n
+    if extra.get("view") is not None and opts.get("sim"):
+        n += 1
+        st["decoded_simulations"] += 1
+        out = simulate_scene(dec, opts["sim"])
+        view1 = sim_view(out[1], out[2], full=True) if out[0] == "sim" else ("no-simulation",) + tuple(str(x)[:120] for x in out)
+        if view1 != extra["view"]:
+            d = view_diff(extra["view"], view1) if isinstance(view1, dict) and isinstance(extra["view"], dict) else ["outcome"]
+            show = lambda v: [v[k] for k in d if k in ("actions", "applied", "events")][:2] if isinstance(v, dict) else v  # noqa: E731
+            viol.append((f"simulation-mismatch{tag}:{feat}", f"decoded by {label}: simulating the decoded scene differs from simulating the original in {d}: original {show(extra['view'])!r:.400} decoded {show(view1)!r:.400}\n"
+                         f"bytes={data.hex()}\n{text}", case(what="simulation")))
+            return n
+        simdata = extra.get("simdata")
+        if isinstance(simdata, bytes):
+            n += 1
+            st["cross_replays"] += 1
+            out, _ = _from_bytes(scen, simdata, C18Simulator(), opts["sim"], 0, {})
+            view2 = sim_view(out[1], out[2], full=True) if out[0] == "sim" else ("no-simulation",) + tuple(str(x)[:120] for x in out)
+            if view2 != extra["view"]:
+                d = view_diff(extra["view"], view2) if isinstance(view2, dict) else ["outcome"]
+                viol.append((f"replay-mismatch{tag}:{feat}", f"simulationFromBytes on {label}: the replay differs from the recorded simulation in {d}: recorded {show(extra['view'])!r:.400} replayed {show(view2)!r:.400}\n"
+                             f"simulation bytes={simdata.hex()}\n{text}", case(what="replay")))
+    return n
+
+
+def check_compilations(prog, scenA, orders, tier, encs, st, viol, only=None):
+    """Every distinct encoding decoded by: the encoding scenario, and one recompilation per iteration
+    order of the identity-hashed sets used while constructing the scenario (`orders`, from
+    set_order_compilations).  For programs without simulation / re-check options the first
+    recompilation was already compared by check_encoding."""
+    idx, name, feat, text, mode, opts = prog
+    full = name.startswith("x_") or opts.get("sim") or opts.get("recheck")
+    comps = [("the encoding scenario", scenA, {"comp": "same"})] if full else []
+    comps += [(f"a recompilation ({lab})", sc, dict(info, comp="set-order")) for lab, sc, info in (orders if full else orders[1:])]
+    for label, scen, info in comps:
+        if only is not None and (only.get("comp") != info["comp"] or only.get("set_order") != info.get("set_order")):
+            continue
+        for origin, snap0, data, extra in encs:
+            base = {"origin": _origin_json(origin), "hex": data.hex()}
+            out = decode(scen, data)
+            st["cross_decodes"] += 1
+            if out[0] != "scene":
+                viol.append((f"roundtrip-error{'' if info['comp'] == 'same' else '-other-compilation'}:{_outcome_sig(out) if out[0] == 'escape' else out[0]}:{feat}",
+                             f"decoding the unmodified encoding {data.hex()} by {label} failed: {out}\n{text}", _case("other-compilation", prog, label=label, what="decode", **info, **base)))
+                continue
+            st["cross_comparisons"] += compare_decoded(prog, label, info, scen, data, snap0, extra, out[1], st, viol, base, same=info["comp"] == "same")
+
+
+# ---------------------------------------------------------------------------------
+# decoding by a compilation in a FRESH PROCESS (another PYTHONHASHSEED, other addresses)
+# ---------------------------------------------------------------------------------
+
+CHILD_MARK = "C18CHILD:"
+
+
+def _view_of(out):
+    return digest(sim_view(out[1], out[2], full=True)) if out[0] == "sim" else "no-simulation:" + ":".join(str(x)[:80] for x in out)
+
+
+def child_main():
+    """Runs in the fresh process: compile each program, decode each encoding, report digests."""
+    req = json.load(sys.stdin)
+    res = []
+    for p in req["programs"]:
+        opts = p["opts"]
+        try:
+            scen = compile_scenario(p["text"], opts)
+        except Exception as e:  # noqa: BLE001
+            res.append({"name": p["name"], "error": repr(e)[:300]})
+            continue
+        rows = []
+        for enc in p["encs"]:
+            o = decode(scen, bytes.fromhex(enc["hex"]))
+            row = {"status": o[0] if o[0] != "escape" else f"escape:{o[1]}"}
+            if o[0] == "scene":
+                dec = o[1]
+                snap = scene_snapshot(dec)
+                row["digest"] = digest(snap)
+                row["globals"] = {k: repr(v) for k, v in globals_snapshot(dec).items()}
+                row["brief"] = repr(snap["params"])[:300]
+                if opts.get("recheck"):
+                    try:
+                        rej = scen.checker.checkRequirements(dec.sample)
+                    except Exception as e:  # noqa: BLE001
+                        rej = f"{type(e).__name__}: {e}"
+                    row["recheck"] = None if rej is None else str(rej)[:200]
+                if opts.get("sim") and enc.get("view"):
+                    out = simulate_scene(dec, opts["sim"])
+                    row["view"] = _view_of(out)
+                    row["applied"] = repr(sim_view(out[1], out[2])["applied"])[:300] if out[0] == "sim" else None
+                    if enc.get("simhex"):
+                        out, _ = _from_bytes(scen, bytes.fromhex(enc["simhex"]), C18Simulator(), opts["sim"], 0, {})
+                        row["replay_view"] = _view_of(out)
+            else:
+                row["detail"] = str(o)[:200]
+            rows.append(row)
+        res.append({"name": p["name"], "hash": [scen.astHash.hex(), scen.compileOptions.hash.hex()], "rows": rows})
+    sys.stdout.write("\n" + CHILD_MARK + json.dumps(res) + "\n")
+    sys.stdout.flush()
+
+
+def fresh_process(item):
+    """Decode the encodings of some programs in a fresh interpreter with PYTHONHASHSEED=hashseed."""
+    hashseed, programs = item
+    st = new_stats()
+    viol = []
+    env = dict(os.environ, PYTHONHASHSEED=str(hashseed))
+    ru0 = resource.getrusage(resource.RUSAGE_CHILDREN)
+    payload = json.dumps({"programs": [{k: p[k] for k in ("name", "feature", "text", "mode", "opts", "encs")} for p in programs]})
+    r = subprocess.run([sys.executable, "-m", "checks.c18", "child"], input=payload, capture_output=True, text=True, env=env,
+                       cwd=os.path.dirname(os.path.dirname(os.path.abspath(__file__))), timeout=3000)
+    ru1 = resource.getrusage(resource.RUSAGE_CHILDREN)
+    st["cpu_s"] = st["cpu_other_compilations_s"] = (ru1.ru_utime + ru1.ru_stime) - (ru0.ru_utime + ru0.ru_stime)
+    lines = [l for l in r.stdout.splitlines() if l.startswith(CHILD_MARK)]
+    if r.returncode != 0 or not lines:
+        raise HarnessError(f"fresh-process decoder failed (rc={r.returncode}): {r.stderr[-1500:]}")
+    results = {x["name"]: x for x in json.loads(lines[-1][len(CHILD_MARK):])}
+    for p in programs:
+        res = results.get(p["name"])
+        prog = (0, p["name"], p["feature"], p["text"], p["mode"], p["opts"])
+        if res is None or "error" in res:
+            viol.append((f"compile-error-other-compilation:{p['feature']}", f"the program did not compile in a fresh process (PYTHONHASHSEED={hashseed}): {res}\n{p['text']}",
+                         _case("fresh-process", prog, hashseed=hashseed, enc=p["encs"][0] if p["encs"] else None)))
+            continue
+        st["fresh_process_programs"] += 1
+        label = f"a compilation in a fresh process (PYTHONHASHSEED={hashseed})"
+        for enc, row in zip(p["encs"], res["rows"]):
+            st["fresh_process_decodes"] += 1
+            case = lambda what: _case("fresh-process", prog, hashseed=hashseed, enc=enc, what=what)  # noqa: E731
+            feat, text = p["feature"], p["text"]
+            if row["status"] != "scene":
+                viol.append((f"roundtrip-error-other-compilation:{row['status']}:{feat}", f"decoding the unmodified encoding {enc['hex']} by {label} failed: {row.get('detail')}\n{text}", case("decode")))
+                continue
+            if row["digest"] != enc["digest"]:
+                viol.append((f"roundtrip-mismatch-recompiled:{feat}", f"decoded by {label}: object properties / params differ from the original (decoded params {row['brief']})\nbytes={enc['hex']}\n{text}", case("snapshot")))
+                continue
+            g0, g1 = enc["globals"], row["globals"]
+            bad = [k for k in sorted(set(g0) & set(g1)) if g0[k] != g1[k]]
+            st["globals_compared"] += len(set(g0) & set(g1))
+            if bad:
+                perm = sorted(g0[k] for k in bad) == sorted(g1[k] for k in bad)
+                viol.append((f"roundtrip-mismatch-other-compilation:behavior-globals-{'permuted' if perm else 'changed'}",
+                             f"decoded by {label} without any error, but the module-level random globals seen by behaviours / monitors differ: "
+                             f"original {{{', '.join(f'{k}={g0[k]}' for k in bad)}}}; decoded {{{', '.join(f'{k}={g1[k]}' for k in bad)}}}\nbytes={enc['hex']}\n{text}", case("globals")))
+                continue
+            if row.get("recheck") is not None:
+                viol.append((f"decoded-scene-violates-requirements-other-compilation:{feat}", f"decoded by {label}: the decoded sample violates the program's requirements ({row['recheck']})\nbytes={enc['hex']}\n{text}", case("recheck")))
+                continue
+            if enc.get("view") and row.get("view") != enc["view"]:
+                viol.append((f"simulation-mismatch-other-compilation:{feat}", f"decoded by {label}: simulating the decoded scene differs from simulating the original (actions applied: {row.get('applied')})\nbytes={enc['hex']}\n{text}", case("simulation")))
+                continue
+            if enc.get("simhex") and row.get("replay_view") != enc["view"]:
+                viol.append((f"replay-mismatch-other-compilation:{feat}", f"simulationFromBytes on {label}: the replay differs from the recorded simulation\nsimulation bytes={enc['simhex']}\n{text}", case("replay")))
+    return {"stats": st, "violations": viol}
 
 
 # ---------------------------------------------------------------------------------
@@ -787,8 +1099,8 @@ def _act_tag(a):
     return (type(a).__name__, canon(t))
 
 
-def sim_view(sim, log):
-    """Everything C18 compares between a run and its replay."""
+def sim_view(sim, log, full=False):
+    """Everything C18 compares between a run and its replay (full: also every probe event)."""
     r = sim.result
     traj = tuple(
         (tuple(canon(p) for p in state.positions), tuple(canon(o) for o in state.orientations)) for state in r.trajectory
@@ -800,8 +1112,11 @@ def sim_view(sim, log):
     )
     records = tuple(sorted((k, canon(v)) for k, v in r.records.items()))
     applied = tuple(e for e in (repr(x) for x in log) if "apply:" in e)
-    return {"trajectory": traj, "actions": actions, "records": records, "termination": (r.terminationType.name, str(r.terminationReason)),
+    view = {"trajectory": traj, "actions": actions, "records": records, "termination": (r.terminationType.name, str(r.terminationReason)),
             "time": sim.currentTime, "applied": applied, "objects": len(objs)}
+    if full:
+        view["events"] = tuple(repr(x) for x in dyn.normalize_log(log))
+    return view
 
 
 def view_diff(a, b):
@@ -823,7 +1138,7 @@ def run_sim(simulator, scene, maxSteps, **kw):
 
 
 def new_dyn_stats():
-    return {"recordings": 0, "recordings_fault_enumerated": 0, "rejected_runs": 0, "replays": 0, "replays_equal": 0, "replay_rng_points": 0, "rt_values": 0,
+    return {"cpu_s": 0.0, "recordings": 0, "recordings_fault_enumerated": 0, "rejected_runs": 0, "replays": 0, "replays_equal": 0, "replay_rng_points": 0, "rt_values": 0,
             "replay_bytes": 0, "sim_encodings": 0,
             "perturbations": 0, "diverged": 0, "not_diverged": 0, "perturb_expected_div": 0, "perturb_expected_ok": 0,
             "div_props": {}, "continue_after": 0,
@@ -888,6 +1203,7 @@ def check_dynamic(item):
     viol = []
     res = {"idx": idx, "name": name, "stats": st, "violations": viol, "wall": 0.0}
     t0 = time.time()
+    c0 = time.process_time()
     try:
         scenA = compile_scenario(text)
         scenB = compile_scenario(text)
@@ -932,6 +1248,7 @@ def check_dynamic(item):
             if stats.capped:
                 raise HarnessError(f"{name}: run exploration capped")
     res["wall"] = time.time() - t0
+    st["cpu_s"] = time.process_time() - c0
     return res
 
 
@@ -1214,12 +1531,22 @@ def run(ctx):
         for sig, desc, case in r["violations"]:
             ctx.violation(sig, desc, case)
 
+    # fresh-process compilations (quick: the cross-compilation programs; thorough: every program)
+    fp = [{"name": r["name"], "feature": by_name[r["name"]][2], "text": by_name[r["name"]][3], "mode": by_name[r["name"]][4], "opts": by_name[r["name"]][5], "encs": r["encs"]}
+          for r in results if r.get("encs") and (tier != "quick" or r["name"].startswith("x_"))]
+    chunk = 60
+    fitems = [(hs, fp[i : i + chunk]) for hs in FRESH_PROCESS_HASHSEEDS[tier] for i in range(0, len(fp), chunk)]
+    for r in ctx.pmap(fresh_process, fitems, chunksize=1):
+        merge_stats(tot, r["stats"])
+        for sig, desc, case in r["violations"]:
+            ctx.violation(sig, desc, case)
+
     vc = check_value_codecs(None)
     merge_stats(tot, vc["stats"])
     for sig, desc, case in vc["violations"]:
         ctx.violation(sig, desc, case)
 
-    decodes = tot["roundtrips"] + tot["roundtrips_recompiled"] + tot["truncations"] + tot["corruptions"] + tot["foreign"] + tot["option_variants"]
+    decodes = tot["roundtrips"] + tot["roundtrips_recompiled"] + tot["truncations"] + tot["corruptions"] + tot["foreign"] + tot["option_variants"] + tot["cross_decodes"] + tot["fresh_process_decodes"]
     refused = tot["trunc_refused"] + tot["corr_refused"] + tot["foreign_refused"] + tot["option_refused"]
     produced = tot["roundtrips"] + tot["corr_scene"]
     # vacuity guards (a violation is never hidden behind a harness error)
@@ -1230,6 +1557,10 @@ def run(ctx):
             "recordings": dtot["recordings"], "replays equal": dtot["replays_equal"], "run-time values recorded": dtot["rt_values"],
             "replays diverged": dtot["diverged"], "replays not diverged": dtot["not_diverged"],
             "replay corruptions": dtot["replay_corruptions"],
+            "decodes by set-order compilations": tot["set_order_compilations"], "decodes by other compilations": tot["cross_decodes"],
+            "behaviour-visible globals compared": tot["globals_compared"], "decoded scenes simulated": tot["decoded_simulations"],
+            "recordings replayed on another compilation": tot["cross_replays"], "requirement re-checks": tot["requirement_rechecks"],
+            "fresh-process decodes": tot["fresh_process_decodes"],
         }
         for k, v in guards.items():
             if v == 0:
@@ -1259,6 +1590,11 @@ def run(ctx):
         corruptions_escape=tot["corr_escape"], corruption_noop_edits_skipped=tot["corr_noop"], header_corruptions=tot["header_corruptions"],
         foreign_decodes=tot["foreign"], foreign_refused=tot["foreign_refused"], option_variant_decodes=tot["option_variants"], option_variants_refused=tot["option_refused"],
         decodes=decodes, decodes_refused=refused, decodes_scene=produced,
+        cpu_s={"static_and_fresh_process": round(tot["cpu_s"], 1), "dynamic": round(dtot["cpu_s"], 1), "of_which_other_compilations": round(tot["cpu_other_compilations_s"], 1)},
+        set_order_compilations=tot["set_order_compilations"], set_order_choice_points=tot["set_order_choice_points"], set_order_capped_programs=tot["set_order_capped_programs"],
+        other_compilation_decodes=tot["cross_decodes"], other_compilation_comparisons=tot["cross_comparisons"], behaviour_globals_compared=tot["globals_compared"],
+        requirement_rechecks=tot["requirement_rechecks"], decoded_scene_simulations=tot["decoded_simulations"], recordings_replayed_on_other_compilation=tot["cross_replays"],
+        fresh_process_programs=tot["fresh_process_programs"], fresh_process_decodes=tot["fresh_process_decodes"], fresh_process_hashseeds=list(FRESH_PROCESS_HASHSEEDS[tier]),
         int_width_classes=tot["int_classes"], int_boundary_values_seen=sorted(tot["int_values"]), fields_hit=tot["fields"], unparsed_layouts=tot["unparsed_layouts"],
         decodes_that_drew_random_numbers=tot["decode_rng_draws"], value_codec_evaluations=tot["value_codec"], value_codec_counts=vc["counts"],
         dynamic=dtot, slowest=walls[:5],
@@ -1271,6 +1607,9 @@ def run(ctx):
         "CPython random.randint/choices/choice reduce to random()/_randbelow() (rng_selftest)",
         "Normal / mutate / mesh-region sampling (gauss, numpy) are covered with fixed seeds 0..k-1, all enumerated; every other program with every RNG outcome",
         "ScriptedSimulator is deterministic: a replay that follows the recording reproduces it exactly",
+        "other compilations = a recompilation, one compilation per iteration order of every `set` created in scenic.core.requirements / "
+        "scenic.core.dynamics.scenarios / scenic.core.scenarios while the scenario is built (seam installation asserted; 0 choice points means "
+        "no such set exists), and fresh interpreters with other PYTHONHASHSEEDs",
     ]
 
 
@@ -1298,6 +1637,18 @@ def replay(ctx, case):
         r = check_dynamic((prog, "thorough", only))
         keys = ("what", "pert", "off", "edit", "cut", "simcut")
         viol = [v for v in r["violations"] if all(v[2].get(k) == case.get(k) for k in keys)]
+    elif kind == "other-compilation":
+        prog = _as_prog(case)
+        scenA = compile_scenario(prog[3], prog[5])
+        scenB = compile_scenario(prog[3], prog[5])
+        origin, scene = _find_scene(scenA, prog[4], case["origin"], "thorough")
+        snap, data, extra = encode_scene(scenA, scene, prog[5])
+        st = new_stats()
+        check_compilations(prog, scenA, set_order_compilations(prog, "thorough", st), "thorough", [(origin, snap, data, extra)], st, viol, only={"comp": case.get("comp"), "set_order": case.get("set_order")})
+        viol = [v for v in viol if v[2].get("what") == case.get("what")]
+    elif kind == "fresh-process":
+        p = {"name": case["name"], "feature": case["feature"], "text": case["text"], "mode": case["mode"], "opts": case.get("opts") or {}, "encs": [case["enc"]] if case.get("enc") else []}
+        viol = [v for v in fresh_process((case["hashseed"], [p]))["violations"] if v[2].get("what") == case.get("what")]
     elif kind == "foreign":
         prog = _as_prog(case)
         f = case["foreign"]
@@ -1324,3 +1675,7 @@ def replay(ctx, case):
             viol = [v for v in viol if v[2].get("off") == case["off"] and v[2].get("edit") == case["edit"]]
     for sig, desc, c in viol:
         ctx.violation(sig, desc, c)
+
+
+if __name__ == "__main__" and len(sys.argv) > 1 and sys.argv[1] == "child":
+    child_main()
